@@ -1,4 +1,9 @@
 CHECKS = {
+ "C10": {
+  "technique": "Lean 4 proof (induction on log-size; kernels and stage tables proved equal to the recursion; homomorphism transport to the executed instance) + differential correspondence on 10 fft packages",
+  "text": "Theorems over any commutative ring and every size 2^m: DIF FFT = bit-reversed evaluations on the domain/coset, DIT on bit-reversed input = evaluations, inverse∘forward = id for both decimations with/without coset, BitReverse is an involution and equals the index map, the unrolled 32/256 kernels and on-the-fly twiddles from stage 3 do not change the result (options irrelevant), generator order, Domain WriteTo/ReadFrom round-trip independent of reader chunking; C10_driver_instance transports the theorems to the mod-q instance the driver executes. Tied to the Go code of all 10 packages by running both on the same option/size/vector lattice.",
+  "note": "Hand model (tie K only); task splitting/goroutines not modelled (nbTasks sweep); cobra bit-reversal variants only by digest; assembly kernels by K only and not executable here (no AVX-512 VBMI2).",
+ },
  "C09": {
   "technique": "Lean 4 proof of the dispatch/glue (all lengths, tails, flag values) + correspondence of three build/run configurations against one Lean model",
   "text": "Partial by nature: assembly is never the subject of a theorem (no ISA semantics available). Proved: the Go glue around vector kernels (full blocks to the kernel, tail to portable code, size guards) returns the element-wise specification for every length, tail and feature-flag value given the kernel's block contract, and every operation has one specification (C01). Tied: the same op stream is answered by {default asm, ADX disabled, purego} and each is diffed against the same Lean model output for all 23 fields, vector lengths 0..4*block+tail and sub-slice alignments.",
